@@ -222,6 +222,26 @@ PERSIST_TIE_PROPS = {"C13", "C14", "C15"}
 PERSIST_TIE_MOD = "AioMySensors.Lemmas.PersistBodiesEq"
 
 
+# further translator ties, one entry per translator script (tools/ties.json): {"name", "script", "out", "snapshot",
+# "gen_mod", "eq_mod", "props", "evidence"}.  Each script takes --repo --out --snapshot [--force-snapshot] and prints a
+# last line "TRANSLATE-OK ..." ; an untranslatable function is written from its snapshot (never an alarm).
+def extra_ties() -> list:
+    try:
+        with open(os.path.join(VERIF, "tools", "ties.json"), encoding="utf-8") as f:
+            return json.load(f)
+    except (OSError, ValueError):
+        return []
+
+
+def translate_extra(t: dict, force_snapshot: bool) -> str:
+    cmd = [PY, os.path.join(VERIF, t["script"]), "--repo", lib.REPO, "--out", os.path.join(VERIF, t["out"]),
+           "--snapshot", os.path.join(VERIF, t["snapshot"])]
+    if force_snapshot:
+        cmd.append("--force-snapshot")
+    rc, out = sh(cmd)
+    return out.strip().split("\n")[-1] if out.strip() else f"exit {rc}"
+
+
 def translate_bodies(force_snapshot: bool) -> str:
     cmd = [PY, os.path.join(VERIF, "tools", "translate.py"), "--repo", lib.REPO,
            "--out", os.path.join(LEAN, "AioMySensors", "Generated", "Bodies.lean"),
@@ -352,6 +372,9 @@ def run(prop: str, tier: str, replay: str | None) -> int:
         persist_tie = prop in PERSIST_TIE_PROPS
         if tie or stream_tie or codec_tie or mqtt_tie or persist_tie:
             report["translation"] = translate_bodies(force_snapshot=False)
+        xties = [t for t in extra_ties() if prop in t["props"]]
+        for t in xties:
+            report.setdefault("extra_ties", {})[t["name"]] = translate_extra(t, force_snapshot=False)
         # 2. build: the models (driver) first, then the property's theorems
         rc_m, out_m = sh(["lake", "build", "AioMySensors.Model"], cwd=LEAN)
         model_ok = rc_m == 0
@@ -374,6 +397,15 @@ def run(prop: str, tier: str, replay: str | None) -> int:
                 if rc_t != 0:
                     proofs_ok = False
                     out_p += "\n" + out_t
+        for t in xties:
+            rc_b, out_b = sh(["lake", "build", t["gen_mod"]], cwd=LEAN)
+            if rc_b != 0:
+                report["extra_ties"][t["name"]] = translate_extra(t, force_snapshot=True) + \
+                    " (fresh translation did not type-check: " + " ".join(out_b.split())[-300:] + ")"
+            rc_t, out_t = sh(["lake", "build", t["eq_mod"]], cwd=LEAN)
+            if rc_t != 0:
+                proofs_ok = False
+                out_p += "\n" + out_t
     finally:
         fcntl.flock(lock, fcntl.LOCK_UN)
         lock.close()
@@ -390,6 +422,9 @@ def run(prop: str, tier: str, replay: str | None) -> int:
         mods.append(MQTT_TIE_MOD)
     if persist_tie and PERSIST_TIE_MOD not in mods:
         mods.append(PERSIST_TIE_MOD)
+    for t in xties:
+        if t["eq_mod"] not in mods:
+            mods.append(t["eq_mod"])
     theorems = {}
     for m in mods:
         for name, a, b in theorem_spans(module_path(m)):
@@ -539,6 +574,7 @@ def run(prop: str, tier: str, replay: str | None) -> int:
         "codec_tie": ("CodecBodiesEq.loadGen_eq: MessageSchema.load assembled from the generated validators = decode, "
                       "raising nothing but ValidationError" if codec_tie else "n/a"),
         "stream_tie": ("StreamBodiesEq: the generated StreamTransport methods equal Transport.connect/disconnect/read/write" if stream_tie else "n/a"),
+        "extra_ties": {t["name"]: t["evidence"] + " — " + report.get("extra_ties", {}).get(t["name"], "") for t in xties},
         "extraction_ok": extraction_ok,
         "model_builds": model_ok,
         "leanchecker": report.get("leanchecker", "not run (quick tier)"),
